@@ -5,6 +5,7 @@ import (
 	"crypto/rand"
 	"fmt"
 	"io"
+	"sync"
 
 	"github.com/ldclabs/cose/cose"
 	"github.com/ldclabs/cose/iana"
@@ -299,6 +300,49 @@ func streamNonce(c *ctx) {
 			c.fail(failure{Op: "nonce", What: "library-chosen nonces repeat across fresh messages", Input: fmt.Sprintf("alg=%d messages=%d", alg, cnt), Observed: fmt.Sprintf("%d repeats", rep), Expected: "0 (12/13-byte nonces from crypto/rand)", Theorem: "C06_fresh_nonces_distinct"})
 		}
 		c.count(fmt.Sprintf("fresh alg=%d n=%d repeats=%d", alg, cnt, rep))
+	}
+	// the same under parallel callers: 16 goroutines, each with its own encryptor of one key, encrypt fresh messages at
+	// the same time; no nonce occurs twice across all of them
+	for _, alg := range []int{3, 24, 10} {
+		per := c.n(2500, 40000)
+		ivs := make([][]string, 16)
+		var wg sync.WaitGroup
+		for g := 0; g < 16; g++ {
+			wg.Add(1)
+			go func(g int) {
+				defer wg.Done()
+				e, err := realEncryptor(alg, make([]byte, symKeySize[alg]))
+				if err != nil {
+					return
+				}
+				for j := 0; j < per; j++ {
+					m := &cose.Encrypt0Message[[]byte]{Payload: []byte("p")}
+					if m.Encrypt(e, nil) != nil {
+						return
+					}
+					iv, _ := m.Unprotected.GetBytes(iana.HeaderParameterIV)
+					ivs[g] = append(ivs[g], string(iv))
+				}
+			}(g)
+		}
+		wg.Wait()
+		seen := map[string]bool{}
+		rep, total := 0, 0
+		for _, l := range ivs {
+			for _, iv := range l {
+				total++
+				if seen[iv] {
+					rep++
+				}
+				seen[iv] = true
+			}
+		}
+		c.evals += total
+		c.nontriv(fmt.Sprintf("fresh-parallel|%d", alg))
+		if rep > 0 || total != 16*per {
+			c.fail(failure{Op: "nonce", What: "library-chosen nonces repeat across fresh messages encrypted by parallel callers", Input: fmt.Sprintf("alg=%d goroutines=16 messages=%d", alg, total), Observed: fmt.Sprintf("%d repeats", rep), Expected: fmt.Sprintf("0 repeats over %d messages", 16*per), Theorem: "C06_fresh_nonces_distinct"})
+		}
+		c.count(fmt.Sprintf("fresh-parallel alg=%d n=%d repeats=%d", alg, total, rep))
 	}
 	_ = io.EOF
 }
